@@ -284,6 +284,7 @@ def run_shard(ctx):
     rng = ctx.rng('c20')
     rp = gen.RandomPrograms(rng, max_depth=3, max_eqs=4, max_names=6, big_offsets=False,
                             allow=('num', 'neg', 'bin', 'paren', 'call1', 'call2', 'cmp', 'ifexp', 'bool', 'verb', 'named'))
+    rp.keyword_rate = 0.15
     for i in range(ctx.pick(80, 2000)):
         prog = rp.program()
         lay = gen.Layout(rng, noise=rng.choice([0.0, 0.3]), breaks=rng.choice([0.0, 0.2]), tight=rng.random() < 0.35)
